@@ -106,6 +106,31 @@ func run(c *core.Child) {
 			}
 			reqs = append(reqs, req{text: nast.Print(d.AST), op: name, vars: typedoc.Assignment(dr, m, d, op, dr.U64()), kind: "typed"})
 		}
+		// one request per abstract-typed root field that names every possible
+		// type in a type condition: all goroutines meet the possible-type
+		// tables and the per-runtime-type sub-plans cold, at the same time
+		for _, f := range m.Type(m.Query).Fields {
+			td := m.Type(f.Type.Base())
+			if td == nil || (td.Kind != model.Interface && td.Kind != model.Union) {
+				continue
+			}
+			need := false
+			for _, a := range f.Args {
+				if a.Type.Kind == "nonnull" {
+					need = true
+				}
+			}
+			if need {
+				continue
+			}
+			var b strings.Builder
+			fmt.Fprintf(&b, "{ %s { __typename", f.Name)
+			for _, pt := range m.PossibleTypes(td.Name) {
+				fmt.Fprintf(&b, " ... on %s { __typename }", pt)
+			}
+			b.WriteString(" } }")
+			reqs = append(reqs, req{text: b.String(), kind: "abstract-probe"})
+		}
 		reqs = append(reqs, req{text: testutil.IntrospectionQuery, kind: "introspection"})
 		reqs = append(reqs, req{text: `{ __schema { types { name possibleTypes { name } enumValues { name } } } }`, kind: "introspection"})
 		reqs = append(reqs, req{text: `{ nope }`, kind: "invalid"})
